@@ -8,10 +8,12 @@ import (
 	"bytes"
 	"fmt"
 	"strconv"
+	"strings"
 	"time"
 
 	"github.com/quay/claircore"
 	"github.com/quay/claircore/toolkit/types"
+	"github.com/quay/claircore/toolkit/types/cpe"
 	"github.com/quay/claircore/verifharness/internal/hx"
 )
 
@@ -380,5 +382,106 @@ func runSQL(r *hx.Run, cfg hx.Config, rnd *hx.Rand) {
 			b = bytes.Join(parts, []byte("."))
 		}
 		opVerUnx(r, a, b)
+	}
+}
+
+// opWfnScan: cpe.WFN.Scan of one source value into a receiver that decoded old.
+func opWfnScan(r *hx.Run, old string, s srcV) {
+	var w cpe.WFN
+	if err := w.UnmarshalText([]byte(old)); err != nil {
+		return
+	}
+	before := w
+	out := hx.Guard(func() string {
+		if err := w.Scan(s.v); err != nil {
+			switch {
+			case w == before:
+				r.Count("wfn-scan:receiver-after-error:unchanged")
+			case w == (cpe.WFN{}):
+				r.Count("wfn-scan:receiver-after-error:zeroed")
+			default:
+				r.Count("wfn-scan:receiver-after-error:partial")
+			}
+			return "err"
+		}
+		b, err := w.MarshalText()
+		if err != nil {
+			return "ok invalid"
+		}
+		// Value -> Scan gives the same name back
+		val, err := w.Value()
+		var back cpe.WFN
+		if err != nil || back.Scan(val) != nil || back.String() != w.String() {
+			r.Fail("", "cpe.WFN Value/Scan round trip of "+string(b))
+		}
+		return "ok " + hx.Hex(b)
+	})
+	if out == "panic" {
+		r.Fail("", fmt.Sprintf("cpe.WFN.Scan(%T) panics on %s", s.v, s.wire))
+	}
+	r.Op("wfn-scan "+hx.Hex([]byte(old))+" "+s.wire, out, true)
+	r.Count("wfn-scan:" + s.wire[:1] + ":" + out[:2])
+}
+
+func opUTF8(r *hx.Run, b []byte) {
+	r.Op("utf8 "+hx.Hex(b), hx.Hex([]byte(strings.ToValidUTF8(string(b), "\uFFFD"))), true)
+}
+
+// runWFN: marshaling.go's wrappers (the text codec underneath is C19's).
+func runWFN(r *hx.Run, cfg hx.Config, rnd *hx.Rand) {
+	pool := []string{
+		"", "cpe:2.3:o:redhat:enterprise_linux:8:*:*:*:*:*:*:*", "cpe:2.3:a:vendor:product:1.0:*:*:*:*:*:*:*",
+		"cpe:2.3:a:foo\\:bar:big\\$money:2010:*:*:*:special:ipod_touch:80gb:*", "cpe:2.3:*:*:*:*:*:*:*:*:*:*:*",
+		"cpe:2.3:a:-:-:-:-:-:-:-:-:-:-", "cpe:/o:redhat:enterprise_linux:8::baseos", "cpe:/a:b:c", "cpe:2.3:a", "cpe:/",
+	}
+	olds := []string{"", pool[1], pool[6]}
+	for _, old := range olds {
+		for _, s := range foreignSrcs() {
+			opWfnScan(r, old, s)
+		}
+		opWfnScan(r, old, intSrc(0))
+		for _, t := range pool {
+			for _, s := range textSrcs([]byte(t)) {
+				opWfnScan(r, old, s)
+			}
+		}
+		for _, t := range []string{"garbage", "cpe:2.3:x:*:*:*:*:*:*:*:*:*:*", "cpe:2.3:a:b:c:d:e:f:g:h:i:j:k:l", "cpe:2.3:a:v\xff:*:*:*:*:*:*:*:*:*", "\xffcpe:2.3:a:v:*:*:*:*:*:*:*:*:*", "cpe:2.3:a:v\x00:*:*:*:*:*:*:*:*:*", "cpe:/a:%ff", "cpe:2.3:a:\xc3\xa9:*:*:*:*:*:*:*:*:*"} {
+			for _, s := range textSrcs([]byte(t)) {
+				opWfnScan(r, old, s)
+			}
+		}
+	}
+	for i := 0; i < cfg.N(400, 20000); i++ {
+		t := []byte(pool[1+rnd.Intn(len(pool)-1)])
+		switch rnd.Intn(6) {
+		case 0:
+			t[rnd.Intn(len(t))] = byte(rnd.Intn(256))
+		case 1:
+			t = t[:rnd.Intn(len(t))]
+		case 2:
+			t = append(t, []byte(rnd.Pick(":x", ":*", "\\", "*", "?", "\x80"))...)
+		case 3:
+			t[rnd.Intn(len(t))] = byte(rnd.Pick("*", "?", "\\", ":", "-", "_", "~", "%", " ", "A")[0])
+		}
+		old := olds[rnd.Intn(len(olds))]
+		for _, s := range textSrcs(t) {
+			opWfnScan(r, old, s)
+		}
+	}
+	// strings.ToValidUTF8 as Scan([]byte) uses it
+	for _, h := range []string{"", "41", "80", "c0", "c080", "c2", "c2a9", "c2a9c2", "e0a080", "e09f80", "eda080", "ed9fbf", "ef", "efbf", "efbfbd", "f0908080", "f08f8080", "f48fbfbf", "f4908080", "f5", "ff", "80808041808080", "41ff42ff", "e282ac41e282"} {
+		b, _ := hx.Unhex(h)
+		if h == "" {
+			b = nil
+		}
+		opUTF8(r, b)
+	}
+	for i := 0; i < cfg.N(600, 40000); i++ {
+		n := 1 + rnd.Intn(7)
+		b := make([]byte, n)
+		for k := range b {
+			b[k] = byte(rnd.Pick("A", "\x80", "\xbf", "\xc2", "\xe0", "\xa0", "\xed", "\x9f", "\xf0", "\x90", "\xf4", "\x8f", "\xef", "\xc0", "\xff", "\xe2")[0])
+		}
+		opUTF8(r, b)
 	}
 }
